@@ -7,6 +7,7 @@
 import Jb.Proofs.Assemble
 import Jb.Proofs.Pivots
 import Jb.Proofs.Ldl
+import Mathlib.Algebra.Order.BigOperators.Group.Finset
 
 set_option linter.unusedSectionVars false
 
@@ -93,8 +94,10 @@ theorem assembled_mulVec (windows : List (List K)) (obs : List (List (MeanVari K
       (Finset.range T).sum fun t' => wpwEntry windows obs T t t' * c.getD t' 0 := by
   rw [bandMulVec_eq width hw1 _ (assembled_row_length windows obs T width hw hedge) c t
     (by rw [assembledRows_length]; exact ht), assembledRows_length]
-  have hT : T = t + (T - t) := by omega
-  conv_rhs => rw [hT, Finset.sum_range_add]
+  have hT : t + (T - t) = T := by omega
+  have hsplit := Finset.sum_range_add (fun t' => wpwEntry windows obs T t t' * c.getD t' 0) t (T - t)
+  rw [hT] at hsplit
+  rw [hsplit]
   congr 1
   · apply Finset.sum_congr rfl
     intro s hs
@@ -166,6 +169,121 @@ theorem assembled_quad (windows : List (List K)) (obs : List (List (MeanVari K))
   rw [quad_one T (fun s => (wo.2.getD s ⟨0, 0⟩).vari) (fun s t => winCoef wo.1 s t) (fun t => x.getD t 0)]
   rfl
 
+/-! ### positive definiteness and the main theorem -/
+
+theorem foldl_max_length_ge (l : List (List K)) :
+    ∀ a : Nat, a ≤ l.foldl (fun m w => max m w.length) a ∧
+      ∀ w ∈ l, w.length ≤ l.foldl (fun m w => max m w.length) a := by
+  induction l with
+  | nil => intro a; simp
+  | cons w0 rest ih =>
+    intro a
+    obtain ⟨h1, h2⟩ := ih (max a w0.length)
+    rw [List.foldl_cons]
+    refine ⟨le_trans (le_max_left _ _) h1, ?_⟩
+    intro w hw
+    rcases List.mem_cons.mp hw with rfl | hw
+    · exact le_trans (le_max_right _ _) h1
+    · exact h2 w hw
+
+theorem length_le_width (windows : List (List K)) :
+    ∀ w ∈ windows, w.length ≤ maxWidth windows * 2 + 1 := by
+  intro w hw
+  have := (foldl_max_length_ge windows 0).2 w hw
+  unfold maxWidth
+  omega
+
+theorem winCoef_static (s t : Nat) : winCoef ([1] : List K) s t = if t = s then 1 else 0 := by
+  unfold winCoef
+  simp only [List.length_singleton, Nat.reduceDiv, Nat.add_zero, Nat.lt_one_iff]
+  by_cases h : t = s
+  · subst h
+    simp
+  · rw [if_neg h]
+    by_cases h2 : s ≤ t ∧ t - s = 0
+    · exfalso; omega
+    · rw [if_neg h2]
+
+theorem obsDot_static (T s : Nat) (x : List K) (hs : s < T) :
+    obsDot ([1] : List K) T s x = x.getD s 0 := by
+  unfold obsDot
+  simp only [winCoef_static, ite_mul, one_mul, zero_mul]
+  rw [Finset.sum_ite_eq' (Finset.range T) s (fun t => x.getD t 0), if_pos (Finset.mem_range.mpr hs)]
+
+theorem list_sum_nonneg' (l : List K) (h : ∀ a ∈ l, 0 ≤ a) : 0 ≤ l.sum := by
+  induction l with
+  | nil => simp
+  | cons a rest ih =>
+    rw [List.sum_cons]
+    exact add_nonneg (h a List.mem_cons_self) (ih fun b hb => h b (List.mem_cons_of_mem _ hb))
+
+theorem getD_vari_nonneg (o : List (MeanVari K)) (h : ∀ mv ∈ o, 0 ≤ mv.vari) (s : Nat) :
+    0 ≤ (o.getD s ⟨0, 0⟩).vari := by
+  rcases Nat.lt_or_ge s o.length with hs | hs
+  · rw [List.getD_eq_getElem _ _ hs]
+    exact h _ (List.getElem_mem hs)
+  · rw [List.getD_eq_default _ _ hs]
+
+/-- the assembled matrix is positive definite as soon as the static precisions are positive -/
+theorem assembled_posdef (ws : List (List K)) (o0 : List (MeanVari K)) (os : List (List (MeanVari K)))
+    (T width : Nat) (hw : ∀ w ∈ ([1] : List K) :: ws, w.length ≤ width) (hw1 : 1 ≤ width)
+    (hobs : ∀ o ∈ o0 :: os, o.length = T) (hedge : EdgeZero (([1] : List K) :: ws) (o0 :: os) T)
+    (hnonneg : ∀ o ∈ o0 :: os, ∀ mv ∈ o, 0 ≤ mv.vari) (hpos : ∀ mv ∈ o0, 0 < mv.vari)
+    (x : List K) (hx : x.length = T) (hne : ∃ t, t < T ∧ x.getD t 0 ≠ 0) :
+    0 < bandQuad width (assembledRows (([1] : List K) :: ws) (o0 :: os) T width) x := by
+  rw [assembled_quad _ _ T width hw hw1 hobs hedge x hx]
+  simp only [List.zip_cons_cons, List.map_cons, List.sum_cons]
+  have hT : o0.length = T := hobs o0 List.mem_cons_self
+  apply add_pos_of_pos_of_nonneg
+  · obtain ⟨t, ht, hxt⟩ := hne
+    have hterm : ∀ s ∈ Finset.range T,
+        0 ≤ (o0.getD s ⟨0, 0⟩).vari * (obsDot ([1] : List K) T s x) ^ 2 := by
+      intro s _
+      exact mul_nonneg (getD_vari_nonneg o0 (hnonneg o0 List.mem_cons_self) s) (sq_nonneg _)
+    refine lt_of_lt_of_le ?_ (Finset.single_le_sum hterm (Finset.mem_range.mpr ht))
+    rw [obsDot_static T t x ht]
+    apply mul_pos
+    · rw [List.getD_eq_getElem _ _ (by omega)]
+      exact hpos _ (List.getElem_mem _)
+    · exact lt_of_le_of_ne (sq_nonneg _) (Ne.symm (pow_ne_zero 2 hxt))
+  · apply list_sum_nonneg'
+    intro a ha
+    simp only [List.mem_map] at ha
+    obtain ⟨wo, hwo, rfl⟩ := ha
+    apply Finset.sum_nonneg
+    intro s _
+    exact mul_nonneg
+      (getD_vari_nonneg wo.2 (hnonneg wo.2 (List.mem_cons_of_mem _ (List.of_mem_zip hwo).2)) s)
+      (sq_nonneg _)
+
+/-- the solver on the assembled rows, with explicit width -/
+theorem assembled_solve (windows : List (List K)) (obs : List (List (MeanVari K))) (T width : Nat)
+    (hw : ∀ w ∈ windows, w.length ≤ width) (hw1 : 1 ≤ width) (hobs : ∀ o ∈ obs, o.length = T)
+    (hedge : EdgeZero windows obs T)
+    (hpd : ∀ x : List K, x.length = T → (∃ t, t < T ∧ x.getD t 0 ≠ 0) →
+      0 < bandQuad width (assembledRows windows obs T width) x)
+    (c : List K)
+    (hc : c = backwardSub width (ldlRows width (assembledRows windows obs T width))
+      (forwardSub width (ldlRows width (assembledRows windows obs T width))
+        ((List.range T).map fun t => (wuwRow windows obs T width t).2))) :
+    c.length = T ∧
+    ∀ t, t < T →
+      ((Finset.range T).sum fun t' => wpwEntry windows obs T t t' * c.getD t' 0) = wpmEntry windows obs T t := by
+  have hL := assembledRows_length windows obs T width
+  have hrow := assembled_row_length windows obs T width hw hedge
+  have hpiv : ∀ t, t < (assembledRows windows obs T width).length →
+      bandAt (ldlRows width (assembledRows windows obs T width)) t 0 ≠ 0 := by
+    intro t ht
+    exact ne_of_gt (ldl_pivots_pos width hw1 _ hrow (by rw [hL]; exact hpd) t ht)
+  obtain ⟨h1, h2⟩ := ldl_solves width hw1 (assembledRows windows obs T width)
+    ((List.range T).map fun t => (wuwRow windows obs T width t).2) (by simp [hL]) hrow hpiv
+  rw [← hc, hL] at h1 h2
+  refine ⟨h1, fun t ht => ?_⟩
+  rw [← assembled_mulVec windows obs T width hw hw1 hedge c t ht, h2 t ht,
+    List.getD_eq_getElem _ _ (by simpa using ht)]
+  simp only [List.getElem_map, List.getElem_range]
+  exact (wuwRow_eq windows obs T width t ht hw hobs hedge).1
+
 /-- **MLPG solves the normal equations** (dense form, from the definition). -/
 theorem mlpg_solves_normal_equations (windows : List (List K)) (obs : List (List (MeanVari K))) (T : Nat)
     (hstatic : windows.head? = some [1]) (hlen : windows.length = obs.length)
@@ -175,6 +293,25 @@ theorem mlpg_solves_normal_equations (windows : List (List K)) (obs : List (List
     m.solve.length = T ∧
     ∀ t, t < T →
       ((Finset.range T).sum fun t' => wpwEntry windows obs T t t' * m.solve.getD t' 0) = wpmEntry windows obs T t := by
-  sorry
+  cases windows with
+  | nil => simp at hstatic
+  | cons w0 ws =>
+    simp only [List.head?_cons, Option.some.injEq] at hstatic
+    subst hstatic
+    cases obs with
+    | nil => simp at hlen
+    | cons o0 os =>
+      have hT : o0.length = T := hobs o0 List.mem_cons_self
+      simp only [List.headD_cons] at hpos
+      simp only [calcWuwWum, Option.some.injEq] at hm
+      subst hm
+      rw [hT]
+      have hw := length_le_width (([1] : List K) :: ws)
+      have hw1 : 1 ≤ maxWidth (([1] : List K) :: ws) * 2 + 1 := by omega
+      apply assembled_solve (([1] : List K) :: ws) (o0 :: os) T _ hw hw1 hobs hedge
+        (fun x hx hne => assembled_posdef ws o0 os T _ hw hw1 hobs hedge hnonneg hpos x hx hne)
+      unfold MlpgMatrix.solve
+      simp only [List.map_map]
+      rfl
 
 end Jb
